@@ -168,6 +168,14 @@ func (W *vWorld) havocValues(i int) {
 			m.vel = vVel{uint32(i) + 100}
 			*W.getVel(m.h) = m.vel
 		}
+		if m.has[cP] {
+			m.ptr = vPtrC{&W.px[i%4], uint32(i) + 200}
+			*W.getPtr(m.h) = m.ptr
+		}
+		if m.has[cR2] {
+			m.w2 = uint32(i) + 300
+			W.getR2(m.h).W = m.w2
+		}
 		return
 	}
 	if m.has[cA] {
